@@ -581,6 +581,7 @@ def run(ctx):
             raise lib.Infra('no generated document offered a position for rules %s' % missing)
     finally:
         c14om.set_legacy(False)
+        b.close()
 
 
 def replay(ctx, case):
@@ -597,6 +598,7 @@ def replay(ctx, case):
         b.flush()
     finally:
         c14om.set_legacy(False)
+        b.close()
     for f in ctx.failures:
         print('REPLAY-FAIL', f['sig'], '|', f['what'][:300])
     for f in ctx.divergences:
